@@ -15,6 +15,8 @@ def load_program(mirtext, srcdir, cap):
     enums = mp.load_enums(srcdir)
     impls = mp.impl_self_types(fns, srcdir)
     prog = Program(fns, enums, impls)
+    # one-line scalar constants of the crate (`const NAME: usize = const 5_usize;`)
+    prog.named_consts = {m_.group(1): m_.group(2) for m_ in re.finditer(r'^const (\w+): \w+ = const ([\w\-]+);$', mirtext, re.M)}
     pre = mp.parse(prelude_text(cap) + FUTURES_TEXT, origin='prelude')
     for name, l in pre.items():
         for f in l:
@@ -146,24 +148,31 @@ class World(object):
             if not isinstance(fut, St) or 'gate' not in fut.f.keys() and 0 not in fut.f: return POISON
             f = fut.f
             gate = f[0]; op = f[1]; obj = f[2]; tok = f[3]
-            gk = gate.val if gate.op == 'c' else None; opk = op.val; objk = obj.val
-            opened = TRUE if gk == 99 else s.ghost.get('gate%d' % gk, FALSE)
+            objk = obj.val
+            gcs = cases(gate); ocs = cases(op)
+            if gcs is None or ocs is None or objk is None: raise EncodeError('gate future with a non-constant gate/op')
+            opened = FALSE
+            for gk, gc in gcs:
+                opened = Or(opened, And(gc, TRUE if gk == 99 else s.ghost.get('gate%d' % gk, FALSE)))
             fin = And(g, opened)
             # completing: leave the object
             occ = s.ghost.get('occ%d' % objk, ZERO)
             s.ghost['occ%d' % objk] = Ite(And(fin, Ugt(occ, ZERO)), Sub(occ, ONE), occ)
-            s.gset('end%d' % opk, BV(mm.now), fin, NONE_T)
+            for opk, oc in ocs: s.gset('end%d' % opk, BV(mm.now), And(fin, oc), NONE_T)
             mm.store(r.proj(('f', 4)), TRUE, fin)
-            if 5 in f and isinstance(f[5], Ref): touch(mm, th, [f[5], BV(opk)], g)
+            if 5 in f and isinstance(f[5], Ref): touch(mm, th, [f[5], BV(ocs[0][0])], g)
             pend = And(g, Not(opened))
             if pend is not FALSE:
                 cx = mm.load(a[1], g)
                 wk = mm.load(cx.f['w'], g) if isinstance(cx, St) else None
-                if isinstance(wk, St):
-                    wk = s.nat.table['__waker_clone'].apply(mm, th, [cx.f['w']], pend)
-                    old = s.ghost.get('gatewaker%d' % gk, NoneV())
-                    s.ghost['gatewaker%d' % gk] = merge(pend, Some(wk), old)
-                s.gset('polled_pending%d' % opk, TRUE, pend, FALSE)
+                for gk, gc in gcs:
+                    pk_ = And(pend, gc)
+                    if pk_ is FALSE or gk == 99: continue
+                    if isinstance(wk, St):
+                        wkc = s.nat.table['__waker_clone'].apply(mm, th, [cx.f['w']], pk_)
+                        old = s.ghost.get('gatewaker%d' % gk, NoneV())
+                        s.ghost['gatewaker%d' % gk] = merge(pk_, Some(wkc), old)
+                for opk, oc in ocs: s.gset('polled_pending%d' % opk, TRUE, And(pend, oc), FALSE)
             return En(POLL, Ite(opened, ZERO, ONE), {0: St(None, {0: tok})})
         R('__gate_poll', gate_poll, visible=True)
         def gate_mode(mm, th, a, g):
@@ -175,14 +184,19 @@ class World(object):
         def gatefut_drop(mm, th, a, g):
             fut = mm.load(a[0], g)
             if not isinstance(fut, St): return UNIT
-            f = fut.f; done = f[4]; opk = f[1].val; objk = f[2].val
+            f = fut.f; done = f[4]; objk = f[2].val
+            ocs = cases(f[1])
+            if ocs is None or objk is None: raise EncodeError('gate future with a non-constant op')
             canc = And(g, Not(done))
             occ = s.ghost.get('occ%d' % objk, ZERO)
             s.ghost['occ%d' % objk] = Ite(And(canc, Ugt(occ, ZERO)), Sub(occ, ONE), occ)
-            s.gset('cancelled%d' % opk, TRUE, canc, FALSE)
-            s.gset('end%d' % opk, BV(mm.now), canc, NONE_T)
+            for opk, oc in ocs:
+                s.gset('cancelled%d' % opk, TRUE, And(canc, oc), FALSE)
+                s.gset('end%d' % opk, BV(mm.now), And(canc, oc), NONE_T)
             return UNIT
-        R('__gatefut_drop', gatefut_drop)
+        # visible: destroying an operation's future is the moment the operation leaves the object; a library that released the queue
+        # just before (in the same thread) must be observable in between
+        R('__gatefut_drop', gatefut_drop, visible=True)
         R('__waker_clone', lambda mm, th, a, g: s.nat.trait[('Clone', 'clone', 'Waker')].apply(mm, th, a, g))
         def task_waker(mm, th, a, g):
             from .natives import TASK_VT_BASE
@@ -272,6 +286,18 @@ class World(object):
             s.gset('flagdrop_at%d' % k, BV(mm.now), g, NONE_T)
             return UNIT
         R('__dropflag', dropflag)
+        def s_done(mm, th, a, g):
+            op = a[0].val; pr = a[1]
+            s.gset('ret%d' % op, BV(mm.now), g, NONE_T)
+            inner = payload(pr, 0) if isinstance(pr, En) else None
+            if isinstance(inner, En):
+                s.gset('sgot%d' % op, Ite(Eq(inner.disc, ONE), ONE, ZERO), g, NONE_T)
+                v = payload(inner, 1)
+                if isinstance(v, E): s.gset('sval%d' % op, v, And(g, Eq(inner.disc, ONE)), NONE_T)
+            else: mm.oblige('junk', 's_next result shape', g)
+            return UNIT
+        R('__s_done', s_done)
+        R('__s_dropped', lambda mm, th, a, g: (s.gset('sdropped%d' % a[0].val, BV(mm.now), g, NONE_T), UNIT)[1])
         R('__pipe_started', lambda mm, th, a, g: (s.gset('pipe_started%d' % a[0].val, BV(mm.now), g, NONE_T), UNIT)[1])
         def canary_drop(mm, th, a, g):
             v = mm.load(a[0], g)
@@ -343,7 +369,7 @@ class World(object):
             name = th['name']
             blocks = []     # list of (stmts, term)
             def emit(stmts, term): blocks.append((stmts, term))
-            loc = [20]; futvars = {}; resvars = {}; dvars = {}; arcvars = set()
+            loc = [20]; futvars = {}; resvars = {}; dvars = {}; arcvars = set(); psvars = {}
             def fresh():
                 loc[0] += 1; return loc[0]
             if th.get('final') or th.get('after'):
@@ -499,6 +525,48 @@ class World(object):
                          '_%d = <Arc<Desync<Canary>> as Clone>::clone(copy _%d) -> [return: bb%d, unwind continue]' % (a2, ar, len(blocks) + 1))
                     emit([], '_%d = pipe::pipe_in::<Canary, GateStream, {closure@%s}>(move _%d, move _%d, move _%d) -> [return: bb%d, unwind continue]' % (r, cl, a2, st_, c, len(blocks) + 1))
                     emit([], '_%d = __pipe_started(const %d_usize) -> [return: bb%d, unwind continue]' % (fresh(), pid, len(blocks) + 1))
+                elif kind == 'pipe':
+                    av = dvars[op[1]]; body = op[2] if len(op) > 2 else {}
+                    obj = 10 + s.canaries[op[1]]
+                    gates = list(body.get('gates', [99])); n = len(gates); ends = bool(body.get('ends', True))
+                    pk = body.get('proc', 'ready')
+                    base = opid
+                    for k in range(n):
+                        s.ops[opid] = dict(thread=name, tid=None, obj=obj, kind='pipe_item', idx=oi, opid=opid, tindex=ti, probe=False, gated=False, tok=40 + opid, item=k, gate=gates[k], pipe=base, wrapper=True)
+                        opid += 1
+                    pid = len(s.pipes); s.pipes.append(dict(base=base, n=n, gates=gates, ends=ends, obj=obj, thread=name, var=op[1], out=body.get('as', 'ps'), consumer=[]))
+                    cl = 'scen:%s:%d' % (name, oi)
+                    T.append(s.pipe_process_closure(name, oi, cl, obj, base, n, pk))
+                    st_ = fresh(); f1 = fresh(); f2 = fresh(); c = fresh(); a2 = fresh(); ar = fresh(); ps = fresh()
+                    psvars[body.get('as', 'ps')] = (ps, pid)
+                    flds = ', '.join(['n: const %d_usize' % n, 'ends: const %s' % ('true' if ends else 'false'), 'idx: const 0_usize', 'pipe: const %d_usize' % pid, 'flag: move _%d' % f1] + ['g%d: const %d_usize' % (k, gates[k]) for k in range(n)])
+                    emit(['_%d = DropFlag { id: const %d_usize }' % (f1, 2 * pid), '_%d = DropFlag { id: const %d_usize }' % (f2, 2 * pid + 1),
+                          '_%d = GateStream { %s }' % (st_, flds), '_%d = {closure@%s} { flag: move _%d }' % (c, cl, f2), '_%d = &_%d' % (ar, av)],
+                         '_%d = <Arc<Desync<Canary>> as Clone>::clone(copy _%d) -> [return: bb%d, unwind continue]' % (a2, ar, len(blocks) + 1))
+                    emit([], '_%d = pipe::pipe::<Canary, GateStream, u32, {closure@%s}>(move _%d, move _%d, move _%d) -> [return: bb%d, unwind continue]' % (ps, cl, a2, st_, c, len(blocks) + 1))
+                    if body.get('depth'):
+                        pr_ = fresh()
+                        emit(['_%d = &mut _%d' % (pr_, ps)], '_%d = pipe::PipeStream::<u32>::set_backpressure_depth(copy _%d, const %d_usize) -> [return: bb%d, unwind continue]' % (fresh(), pr_, body['depth'], len(blocks) + 1))
+                    emit([], '_%d = __pipe_started(const %d_usize) -> [return: bb%d, unwind continue]' % (fresh(), pid, len(blocks) + 1))
+                elif kind == 's_next':
+                    ps, pid = psvars[op[1]]
+                    s.ops[opid] = dict(thread=name, tid=None, obj=s.pipes[pid]['obj'], kind='s_next', idx=oi, opid=opid, tindex=ti, probe=False, gated=False, tok=0, pipe=s.pipes[pid]['base'], seq=len(s.pipes[pid]['consumer']), wrapper=True)
+                    s.pipes[pid]['consumer'].append(opid)
+                    task = ntasks[0]; ntasks[0] += 1
+                    wk = fresh(); cx = fresh(); rf = fresh(); pn = fresh(); pr = fresh(); d_ = fresh(); u_ = fresh(); wr = fresh()
+                    n0 = len(blocks)
+                    emit([], '_%d = __task_waker(const %d_usize) -> [return: bb%d, unwind continue]' % (wk, task, n0 + 1))
+                    emit(['_%d = &_%d' % (wr, wk)], '_%d = Context::<\'_>::from_waker(copy _%d) -> [return: bb%d, unwind continue]' % (cx, wr, n0 + 2))
+                    emit(['_%d = &mut _%d' % (rf, ps)], '_%d = Pin::<&mut PipeStream<u32>>::new(copy _%d) -> [return: bb%d, unwind continue]' % (pn, rf, n0 + 3))
+                    emit(['_%d = &mut _%d' % (u_, cx)], '_%d = <PipeStream<u32> as Stream>::poll_next(move _%d, copy _%d) -> [return: bb%d, unwind continue]' % (pr, pn, u_, n0 + 4))
+                    emit(['_%d = discriminant(_%d)' % (d_, pr)], 'switchInt(move _%d) -> [0: bb%d, otherwise: bb%d]' % (d_, n0 + 6, n0 + 5))
+                    emit([], '_%d = __task_wait(const %d_usize) -> [return: bb%d, unwind continue]' % (fresh(), task, n0 + 2))
+                    emit([], '_%d = __s_done(const %d_usize, move _%d) -> [return: bb%d, unwind continue]' % (fresh(), opid, pr, n0 + 7))
+                    opid += 1
+                elif kind == 's_drop':
+                    ps, pid = psvars[op[1]]
+                    emit([], '_%d = mem::drop::<PipeStream<u32>>(move _%d) -> [return: bb%d, unwind continue]' % (fresh(), ps, len(blocks) + 1))
+                    emit([], '_%d = __s_dropped(const %d_usize) -> [return: bb%d, unwind continue]' % (fresh(), pid, len(blocks) + 1))
                 elif kind == 'd_drop':
                     dv = dvars[op[1]]
                     emit([], '_%d = __drop_begin(const %d_usize) -> [return: bb%d, unwind continue]' % (fresh(), s.canaries[op[1]], len(blocks) + 1))
